@@ -53,8 +53,42 @@ pub fn is_weakening(a: &str, b: &str) -> bool {
     }
 }
 
+/// rendered `Ambiguous; definite substitution` whose guidance uses one canonical variable twice
+pub fn definite_with_repeated_var(r: &str) -> bool {
+    if !r.starts_with("Ambiguous; definite") {
+        return false;
+    }
+    let sub = match subst_part(r) {
+        Some(s) => s,
+        None => return false,
+    };
+    let mut seen: Vec<&str> = vec![];
+    let mut i = 0;
+    let b = sub.as_bytes();
+    while i < b.len() {
+        if b[i] == b'^' {
+            let mut j = i + 1;
+            while j < b.len() && (b[j].is_ascii_digit() || b[j] == b'.') {
+                j += 1;
+            }
+            let tok = &sub[i..j];
+            if seen.contains(&tok) {
+                return true;
+            }
+            seen.push(tok);
+            i = j;
+        } else {
+            i += 1;
+        }
+    }
+    false
+}
+
 /// classification of a difference between two rendered answers
 pub fn diff_class(a: &str, b: &str) -> String {
+    if definite_with_repeated_var(a) != definite_with_repeated_var(b) {
+        return "definite-guidance-with-repeated-var".into();
+    }
     for x in [a, b] {
         if let Some(m) = x.strip_prefix("<PANIC ") {
             return format!("panic:{}", m.trim_end_matches('>'));
@@ -91,7 +125,7 @@ impl Property for C10 {
         vec!["answers compared as rendered strings with constraints sorted (as tests/test/mod.rs does)".into(), "a history is abandoned after a panic/budget excess of the used solver (its state is then out of contract; C12 covers recovery)".into()]
     }
     fn cases_per_shard(&self, tier: Tier) -> u32 {
-        tier.pick(120, 2500)
+        tier.pick(600, 6000)
     }
     fn decode(&self, t: &mut Tape, _tier: Tier) -> Case {
         let cfg = if t.chance(55) { GenCfg::horn_auto() } else { GenCfg::horn() };
@@ -182,9 +216,10 @@ impl Property for C10 {
                     };
                     if &got != exp {
                         let st = crate::refsem::solution_sets(&case.pg.program, &case.pg.goals[*gi], 2, 50).st;
-                        let co = if st.co_cycle { ":coinductive-cycle" } else { "" };
+                        let dc = diff_class(exp, &got);
+                        let co = if st.co_cycle && !dc.contains("repeated-var") { ":coinductive-cycle" } else { "" };
                         out.fail(
-                            format!("{}:history-differs:{}{}", sv.name(), diff_class(exp, &got), co),
+                            format!("{}:history-differs:{}{}", sv.name(), dc, co),
                             format!("[{}] goal `{}` at history position {}: fresh solver says `{}`, used solver says `{}`\n{}history (goal texts): {:?}", sv.name(), lg.text, pos, exp, got, low.text, case.history[..=pos].iter().map(|i| low.goals[*i].as_ref().map(|g| g.text.clone()).unwrap_or_default()).collect::<Vec<_>>()),
                         );
                         break;
